@@ -361,6 +361,7 @@ static bool model_step_inner(Model &m, Op &op) {
     }
     case OP_CLOSE: case OP_ABORT: {
         if (!f.open) return skip();
+        if (f.poisoned && op.kind == OP_CLOSE) return skip();   // (close would run enddef: not modelled)
         if (any_pending(f) && op.a[0] == 0) return skip();
         if (op.kind == OP_ABORT && any_pending(f)) { op.exp_rc_rank.assign(m.nprocs, NC_NOERR); for (int r = 0; r < m.nprocs; r++) for (auto &q : f.ranks[r].reqs) if (q.live) op.exp_rc_rank[r] = NC_EPENDING; }
         if (op.kind == OP_ABORT && (f.fresh && f.mode == FM_DEFINE)) { m.disk.erase(f.path); m.absent.push_back(f.path); f = MFile(); return true; }
@@ -400,6 +401,9 @@ static bool model_step_inner(Model &m, Op &op) {
         case 10: rc = NC_NOERR; break;                                                            // cancel(NC_REQ_ALL)
         case 11: case 16: if (def) rc = NC_EINDEFINE; else if (op.a[0] == 16 && ro) op.exp_rc_alt.push_back(NC_EPERM); break;   // sync / sync_numrecs (the latter writes the header: read-only may be refused)
         case 14: rc = NC_NOERR; break;                                                            // buffer attach + detach
+        case 20:                                                                                  // two over-sized fixed variables are defined and ncmpi_enddef is called: it must fail and leave the file in define mode
+            if (!def || ro || f.poisoned || f.format == 5) return skip();
+            rc = NC_EVARSIZE; f.poisoned = true; break;
         default: return skip();
         }
         if ((op.a[0] == 4 || op.a[0] == 5 || op.a[0] == 6) && rc == NC_NOERR) {
@@ -421,7 +425,7 @@ static bool model_step_inner(Model &m, Op &op) {
         f.saved = std::make_shared<MFile>(f); f.saved->saved.reset(); f.saved->mode = FM_COLL;
         f.mode = FM_DEFINE; f.in_redef = true; return true;
     }
-    case OP_ENDDEF: case OP_ENDDEF2: if (op.a[4] == 1 && f.open && f.mode != FM_DEFINE && op.kind == OP_ENDDEF) { op.exp_rc = NC_ENOTINDEFINE; return true; } if (!f.open || f.mode != FM_DEFINE) return skip(); { bool wf = f.fresh; do_enddef(f); f.first_layout = wf; for (int k = 0; k < 4; k++) f.ed[k] = (op.kind == OP_ENDDEF2) ? op.a[k] : 0; } m.snap_state[op.file] = 0; return true;
+    case OP_ENDDEF: case OP_ENDDEF2: if (f.open && f.poisoned) { if (op.a[4] == 1 && op.kind == OP_ENDDEF) { op.exp_rc = NC_EVARSIZE; return true; } return skip(); } if (op.a[4] == 1 && f.open && f.mode != FM_DEFINE && op.kind == OP_ENDDEF) { op.exp_rc = NC_ENOTINDEFINE; return true; } if (!f.open || f.mode != FM_DEFINE) return skip(); { bool wf = f.fresh; do_enddef(f); f.first_layout = wf; for (int k = 0; k < 4; k++) f.ed[k] = (op.kind == OP_ENDDEF2) ? op.a[k] : 0; } m.snap_state[op.file] = 0; return true;
     // collective and independent accesses go through different MPI file handles (and, with aggregation, through other ranks): data written
     // before a mode switch is only ordered with accesses after it by the documented sync-barrier-sync, even on the writing rank itself
     case OP_BEGIN_INDEP: if (op.a[4] == 1 && f.open && f.mode == FM_DEFINE) { op.exp_rc = NC_EINDEFINE; return true; } if (op.a[4] == 1 && f.open && f.mode == FM_INDEP) { op.exp_rc = NC_NOERR; return true; } if (!f.open || f.mode != FM_COLL) return skip(); f.mode = FM_INDEP; for (auto &v : f.vars) for (auto &c : v.cells) if (c.wmask) c.wmask = 0xff; return true;
